@@ -25,7 +25,7 @@ def main(ctx):
 
     def run(i, c):
         return recipe.tlc_only('queue-design%d' % i, 'Queue', constants=c, invariants=INV,
-                               properties=PROPS, view=None, workers=6, timeout=2400, heap='6g')
+                               properties=PROPS, view=None, workers=6, timeout=1800, heap='6g', budget_ok=True)
     with ThreadPoolExecutor(2) as ex:
         futs = [ex.submit(run, i, c) for i, c in enumerate(units)]
         rc, hs, log = sandbox.run_driver('harness.queue_main', [ctx.tier],
